@@ -170,6 +170,7 @@ def run(ctx):
             if k < (40 if quick else 500):
                 oc = dict(systems[text])
                 oc["ignore_kinds"] = rng.sample(KINDS, 2)
+                oc["files"] = (k % 3 == 0)      # the documents of this case are also read from files rewritten in place
                 S2 = second_system(S, rng)
                 oc["second"] = {"text": gen_pil.render(S2, order=order), "expected": gen_pil.expected(S2)}
                 ocases.append(oc)
@@ -362,6 +363,18 @@ def witness(f):
     if c.get("released_before") and f["what"].startswith("released-before"):
         before = ("import gc\nfor e in " + repr(c["released_before"]) + ":\n    try: read_pil(e)\n    except Exception: pass\n"
                   "    gc.collect()\n")
+    if f["what"].startswith("file-reread"):
+        return {"key": {"what": f["what"].split(":")[0]}, "input": c, "what": f["what"],
+                "snippet": "# harness/oracles/c14.py files_in_place; the essence:\n"
+                           "import os\nfrom dsdobjects.objectio import *\n"
+                           "docs = " + repr([c["text"], (c.get("second") or {}).get("text") or
+                                             (c.get("released_before") or ["<the text with its numbers changed>"])[0]]) + "\n"
+                           "size = max(map(len, docs)) + 2\nouts = []\n"
+                           "for t in docs:   # one path, same size, same second\n"
+                           "    open('system.pil', 'w').write(t + '#' + 'p' * (size - len(t) - 2) + '\\n')\n"
+                           "    os.utime('system.pil', (1600000000, 1600000000)); clear_io_objects(); set_io_objects()\n"
+                           "    outs.append(read_pil('system.pil', is_file=True))\n"
+                           "# outs[1] must be the system declared by docs[1], not the one declared by docs[0]"}
     return {"key": {"what": f["what"].split(":")[0]}, "input": c, "what": f["what"],
             "snippet": "from dsdobjects.objectio import *; set_io_objects()\n" + before + "out = read_pil(" + repr(c["text"]) +
                        (", ignore=" + repr(c["ignore"]) if c.get("ignore") else "") + ")"}
